@@ -43,6 +43,8 @@ type responseRouter struct {
 	c         chan<- response
 	streaming bool
 	done      <-chan struct{}
+	// gen is the generation of the stream the request was sent on; 0 = not sent (yet)
+	gen uint64
 }
 
 // send hands the response over to the call. It must not be called with the
@@ -65,6 +67,7 @@ type channel struct {
 	rand            *rand.Rand
 	gorumsClient    ordering.GorumsClient
 	gorumsStream    ordering.Gorums_NodeStreamClient
+	streamGen       uint64 // generation of gorumsStream; incremented, with streamMut held, when the stream is replaced
 	streamMut       sync.RWMutex
 	streamBroken    atomicFlag
 	streamUp        chan struct{} // signals that a broken stream has been re-created
@@ -113,6 +116,7 @@ func (c *channel) newNodeStream(conn *grpc.ClientConn) error {
 	c.streamCtx, c.cancelStream = context.WithCancel(c.parentCtx)
 	c.gorumsClient = ordering.NewGorumsClient(conn)
 	c.gorumsStream, err = c.gorumsClient.NodeStream(c.streamCtx)
+	c.streamGen++
 	c.streamMut.Unlock()
 	if err != nil {
 		return err
@@ -128,14 +132,25 @@ func (c *channel) newNodeStream(conn *grpc.ClientConn) error {
 	return nil
 }
 
-func (c *channel) cancelPendingMsgs() {
+// cancelPendingMsgs fails the calls whose request was sent on a stream of
+// generation gen or older: that stream is gone, and with it their replies.
+// Requests that have not been sent yet are not affected; the sender will send
+// them on the new stream, or fail them itself.
+func (c *channel) cancelPendingMsgs(gen uint64) {
 	c.responseMut.Lock()
 	routers := make([]responseRouter, 0, len(c.responseRouters))
 	for msgID, router := range c.responseRouters {
+		if router.gen == 0 || router.gen > gen {
+			continue
+		}
 		routers = append(routers, router)
 		// delete the router if we are only expecting a single reply message
 		if !router.streaming {
 			delete(c.responseRouters, msgID)
+		} else {
+			// report every broken stream only once
+			router.gen = 0
+			c.responseRouters[msgID] = router
 		}
 	}
 	c.responseMut.Unlock()
@@ -160,7 +175,7 @@ func (c *channel) routeResponse(msgID uint64, resp response) {
 func (c *channel) enqueue(req request, responseChan chan<- response, streaming bool) {
 	if responseChan != nil {
 		c.responseMut.Lock()
-		c.responseRouters[req.msg.Metadata.MessageID] = responseRouter{responseChan, streaming, req.done}
+		c.responseRouters[req.msg.Metadata.MessageID] = responseRouter{c: responseChan, streaming: streaming, done: req.done}
 		c.responseMut.Unlock()
 	}
 	// either enqueue the request on the sendQ or respond
@@ -192,6 +207,16 @@ func (c *channel) drainSendQ() {
 		default:
 			return
 		}
+	}
+}
+
+// markSent records the generation of the stream a request was sent on.
+func (c *channel) markSent(msgID uint64, gen uint64) {
+	c.responseMut.Lock()
+	defer c.responseMut.Unlock()
+	if router, ok := c.responseRouters[msgID]; ok {
+		router.gen = gen
+		c.responseRouters[msgID] = router
 	}
 }
 
@@ -253,6 +278,9 @@ func (c *channel) sendMsg(req request) (err error) {
 	if err != nil {
 		c.setLastErr(err)
 		c.streamBroken.set()
+	} else {
+		// the reply (if any) will arrive on this stream
+		c.markSent(req.msg.Metadata.MessageID, c.streamGen)
 	}
 
 	close(done)
@@ -301,12 +329,13 @@ func (c *channel) receiver() {
 		err := c.gorumsStream.RecvMsg(resp)
 		if err != nil {
 			c.streamBroken.set()
+			gen := c.streamGen
 			c.streamMut.RUnlock()
 			c.setLastErr(err)
 			// we only reach this point when the stream failed AFTER a message
 			// was sent and we are waiting for a reply. We thus need to respond
 			// with a stream is down error on all pending messages.
-			c.cancelPendingMsgs()
+			c.cancelPendingMsgs(gen)
 			// attempt to reconnect indefinitely until the node is closed.
 			// This is necessary when streaming is enabled.
 			c.reconnect(-1)
@@ -319,7 +348,7 @@ func (c *channel) receiver() {
 		select {
 		case <-c.parentCtx.Done():
 			// nobody is left to deliver replies: fail the calls still waiting for one
-			c.cancelPendingMsgs()
+			c.cancelPendingMsgs(math.MaxUint64)
 			return
 		default:
 		}
@@ -385,8 +414,13 @@ func (c *channel) reconnect(maxRetries float64) {
 		stream, err = c.gorumsClient.NodeStream(c.streamCtx)
 		if err == nil {
 			c.gorumsStream = stream
+			oldGen := c.streamGen
+			c.streamGen++
 			c.streamBroken.clear()
 			c.streamMut.Unlock()
+			// The old stream may have been replaced before the receiver noticed
+			// that it broke; the requests sent on it will never be answered.
+			c.cancelPendingMsgs(oldGen)
 			// wake up the receiver if it is waiting to retry: replies may arrive now
 			select {
 			case c.streamUp <- struct{}{}:
